@@ -395,7 +395,9 @@ func readMaxOptionVerbatim(c *core.Ctx) {
 			if !isAs {
 				return true
 			}
-			stmts++
+			if len(as.Lhs) == 1 && astx.IsFieldNamed(info, as.Lhs[0], "ReadMaxBytes") {
+				stmts++
+			}
 			if len(as.Lhs) == 1 && len(as.Rhs) == 1 && astx.IsFieldNamed(info, as.Lhs[0], "ReadMaxBytes") {
 				if sel, isSel := astx.StripConv(info, astx.Unparen(as.Rhs[0])).(*ast.SelectorExpr); isSel && recv != nil && astx.ObjOf(info, sel.X) == recv && astx.FieldOf(info, sel) != nil {
 					ok = true
@@ -403,7 +405,17 @@ func readMaxOptionVerbatim(c *core.Ctx) {
 			}
 			return true
 		})
-		c.Check(ok && stmts == 1 && len(astx.Calls(fd.Body)) == 0, "verbatim/"+name, fd.Pos(), "%s is the single assignment config.ReadMaxBytes = o.<field>", name)
+		// besides the assignment only statements that cannot matter (a counter bumped through sync/atomic, …)
+		others := true
+		for _, st := range fd.Body.List {
+			if as, isAs := st.(*ast.AssignStmt); isAs && len(as.Lhs) == 1 && astx.IsFieldNamed(info, as.Lhs[0], "ReadMaxBytes") {
+				continue
+			}
+			if !quietStmt(p, info, st, 0) {
+				others = false
+			}
+		}
+		c.Check(ok && stmts == 1 && others, "verbatim/"+name, fd.Pos(), "%s assigns config.ReadMaxBytes = o.<field> and does nothing else that could change it", name)
 	}
 	c.Floor("read-max option appliers", n, 2)
 }
@@ -550,57 +562,84 @@ func responseTrailersAlwaysMerged(c *core.Ctx) {
 	p := c.P
 	info := p.Connect.TypesInfo
 	n := 0
-	for _, name := range []string{"NewUnaryHandler", "NewClientStreamHandler"} {
-		fd := fn(p, name)
-		if fd == nil {
-			c.Unresolved(name, "not found")
-			continue
+	// wherever the message of a *Response is handed to a conn's Send (the unary and client-stream handler
+	// adapters, in whatever function or literal they live)
+	isResponseMsg := func(e ast.Expr) (types.Object, bool) {
+		// response.Any() on an AnyResponse / *Response
+		if call, ok := astx.Unparen(e).(*ast.CallExpr); ok && isMethodNamed(info, call, "Any") && len(call.Args) == 0 {
+			if fs, ok := call.Fun.(*ast.SelectorExpr); ok {
+				if nt := astx.NamedOf(derefType(info.TypeOf(fs.X))); nt != nil && nt.Obj().Pkg() == p.Connect.Types && (nt.Obj().Name() == "AnyResponse" || nt.Obj().Name() == "Response") {
+					return astx.ObjOf(info, fs.X), true
+				}
+			}
+			return nil, false
 		}
-		// the adapter closure: the function literal that calls conn.Send
-		ast.Inspect(fd.Body, func(x ast.Node) bool {
-			lit, ok := x.(*ast.FuncLit)
-			if !ok {
-				return true
-			}
-			var send *ast.CallExpr
-			for _, call := range astx.Calls(lit.Body) {
-				if isMethodNamed(info, call, "Send") {
-					send = call
-				}
-			}
-			if send == nil {
-				return true
-			}
-			n++
-			paths, bad := 0, 0
-			_, trunc := astx.ForEachPathTo(info, lit.Body, send, func(s *astx.State) {
-				paths++
-				merged := s.CountCalls(func(call *ast.CallExpr) bool {
-					f := astx.CalleeFunc(info, call)
-					if f == nil || f.Name() != "mergeHeaders" || len(call.Args) != 2 {
-						return false
-					}
-					tr := false
-					ast.Inspect(call.Args[1], func(y ast.Node) bool {
-						if cc, ok := y.(*ast.CallExpr); ok && isMethodNamed(info, cc, "Trailer") {
-							tr = true
-						}
-						if sel, ok := y.(*ast.SelectorExpr); ok && sel.Sel.Name == "trailer" && astx.FieldOf(info, sel) != nil {
-							tr = true
-						}
-						return true
-					})
-					return tr
-				})
-				if merged == 0 {
-					bad++
-				}
-			})
-			c.Check(!trunc && paths > 0 && bad == 0, "trailers/"+name, send.Pos(), "%s: on %d path(s) to conn.Send the response's trailers were merged onto the conn (%d without)", name, paths, bad)
-			return false
-		})
+		sel, ok := astx.Unparen(e).(*ast.SelectorExpr)
+		if !ok || sel.Sel.Name != "Msg" {
+			return nil, false
+		}
+		nt := astx.NamedOf(derefType(info.TypeOf(sel.X)))
+		if nt == nil || nt.Obj().Pkg() != p.Connect.Types || nt.Obj().Name() != "Response" {
+			return nil, false
+		}
+		return astx.ObjOf(info, sel.X), true
 	}
-	c.Floor("unary / client-stream handler adapters", n, 2)
+	for _, fd := range p.AllFuncDecls(p.Connect) {
+		bodies := []*ast.BlockStmt{fd.Body}
+		ast.Inspect(fd.Body, func(x ast.Node) bool {
+			if lit, ok := x.(*ast.FuncLit); ok {
+				bodies = append(bodies, lit.Body)
+			}
+			return true
+		})
+		for bi, body := range bodies {
+			for _, send := range astx.Calls(body) {
+				if !isMethodNamed(info, send, "Send") || len(send.Args) != 1 {
+					continue
+				}
+				if _, ok := isResponseMsg(send.Args[0]); !ok {
+					continue
+				}
+				// the innermost body that contains the call
+				inner := true
+				for bj, other := range bodies {
+					if bj != bi && astx.Contains(body, other) && astx.Contains(other, send) {
+						inner = false
+					}
+				}
+				if !inner {
+					continue
+				}
+				n++
+				paths, bad := 0, 0
+				_, trunc := astx.ForEachPathTo(info, body, send, func(s *astx.State) {
+					paths++
+					merged := s.CountCalls(func(call *ast.CallExpr) bool {
+						f := astx.CalleeFunc(info, call)
+						if f == nil || f.Name() != "mergeHeaders" || len(call.Args) != 2 {
+							return false
+						}
+						tr := false
+						ast.Inspect(call.Args[1], func(y ast.Node) bool {
+							if cc, ok := y.(*ast.CallExpr); ok && isMethodNamed(info, cc, "Trailer") {
+								tr = true
+							}
+							if sel, ok := y.(*ast.SelectorExpr); ok && sel.Sel.Name == "trailer" && astx.FieldOf(info, sel) != nil {
+								tr = true
+							}
+							return true
+						})
+						return tr
+					})
+					if merged == 0 {
+						bad++
+					}
+				})
+				c.Check(!trunc && paths > 0 && bad == 0, fmt.Sprintf("trailers/%s#%d", core.FuncName(fd), n), send.Pos(), "%s: on %d path(s) to the Send of the response's message its trailers were merged onto the conn (%d without)", core.FuncName(fd), paths, bad)
+			}
+		}
+	}
+	c.Floor("sends of a Response's message by handler adapters", n, 2)
 }
 
 func errorMetaCopiedWhole(c *core.Ctx) {
